@@ -874,7 +874,12 @@ def relabel_loops(ck, f, sets, loops):
         guided = any(a[0].startswith("has_") and a[1] is True for a in atoms_at(f, hdr)) or any(a[0].startswith("has_") and a[1] is True for r_ in rw for a in atoms_at(f, r_[0]))
         if re.fullmatch(r"\(it\d+\(0\) < 2\w*\)", cond) and guided:
             # (a) both-handles loop in a cache-guided branch
-            unprotected = [r_ for r_ in rw if not any((re.search(r"\.find\(.*\) == .*\.end\(\)\)$", s_) and p_ is True) or (re.search(r"\.find\(.*\) != .*\.end\(\)\)$", s_) and p_ is False) or (re.search(r"\.count\(.*\)", s_) and "== 0" in s_ and p_ is True) for s_, p_, c_ in cn.facts(r_[0]))]
+            from .canon import eq_match
+
+            def not_yet_processed(s_, p_):
+                # find(k) == end() holds, or count(k) == 0 holds
+                return bool(eq_match(s_, "==", r".*\.find\(.*\)", r".*\.end\(\)", pol=p_, want="==")) or bool(eq_match(s_, "==", r".*\.count\(.*\)", r"0", pol=p_, want="=="))
+            unprotected = [r_ for r_ in rw if not any(not_yet_processed(s_, p_) for s_, p_, c_ in cn.facts(r_[0]))]
             (ck.ok if not unprotected else lambda r, w, t_: ck.violate(r, w, t_, "C17.relabel:%s:once" % f.pq))("C17.relabel", f.loc(t), "%s: every handle rewrite in the cache-guided loop over both swapped handles is behind a processed-set test (%d rewrite site(s), %d unprotected)" % (f.name, len(rw), len(unprotected)))
         # (b) no early exit from a rewriting loop
         inner = [h2 for h2, b2, k2 in loops if h2 != hdr and h2 in body]
